@@ -223,6 +223,7 @@ func HarnessAttrQuery() {
 		vrtCover("C04.attrquery-success")
 		vrtAssert("C04.success-assertion-is-signed", a.Signature != nil)
 		if a.Signature != nil {
+			vrtFinding("C04.xmlsig-digests-text-unescaped", vrtC14NSensitive(a))
 			vrtAssert("C04.enveloped-signature-verifies-on-the-wire", vrtEnvelopedValid(a, a.Signature, string(st.respCert)))
 		}
 	}
@@ -258,6 +259,7 @@ func HarnessAttrQueryConformant() {
 	if vrtBool("conf.sha1") {
 		conf.IDPConfig.SignatureAlgorithm = vrtRSASHA1
 	}
+	vrtIssuer = vrtStaticIssuer
 	p, err := NewProvider(st, StaticIssuer(vrtIssuer), conf)
 	if err != nil {
 		vrtFail("harness.NewProvider-failed")
